@@ -532,6 +532,11 @@ func performIDPRequest(log telemetry.Logger, client *http.Client, uri string, fo
 		log.Error("error unmarshalling tokens response", err)
 		return nil, codes.Internal
 	}
+	if bodyTokens == nil {
+		// a JSON `null` body decodes successfully and resets the pointer to nil
+		log.Error("error unmarshalling tokens response", errors.New("null tokens response"))
+		return nil, codes.Internal
+	}
 
 	return bodyTokens, codes.OK
 }
